@@ -149,6 +149,16 @@ def w_enum(acc, nfields, first_key, orders_slice, inplace_modes):
                     acc.run("fields", o_fields, {"keys": keys, "mw": "custom", "order": order, "case_sensitive": cs, "inplace": inplace}, True)
 
 
+def w_large(acc, n):
+    keys = [KEYS[(i * 5 + i // 7) % len(KEYS)] + ("" if i % 3 else str(i % 11)) for i in range(n)]
+    for inplace in (True, False):
+        acc.run("fields", o_fields, {"keys": keys, "mw": "alpha", "inplace": inplace}, True)
+        acc.run("fields", o_fields, {"keys": keys, "mw": "normalize", "inplace": inplace}, True)
+        for cs in (True, False):
+            acc.run("fields", o_fields, {"keys": keys, "mw": "custom", "order": ["b", "a1", "c"], "case_sensitive": cs, "inplace": inplace}, True)
+    acc.classes["large-entry"] += 1
+
+
 def w_ctor(acc):
     for order in all_orders(3) + [["a", "a"], ["a", "b", "a"], ["A", "b", "A"], ["a", "A", "a"]]:
         for cs in (False, True):
@@ -168,7 +178,7 @@ def run(chk):
     quick = chk.tier == "quick"
     maxf = 4 if quick else 5
     n_orders = len(all_orders())
-    tasks = [("w_ctor", ())]
+    tasks = [("w_ctor", ())] + [("w_large", (n,)) for n in (130, 300, 1100)]
     for nf in range(0, maxf + 1):
         if nf <= 2:
             for k in (KEYS if nf else [None]):
